@@ -304,6 +304,10 @@ class Pipeline:
         first = self.grammar.by_name(self.grammar.start)[0].syms[0] if self.grammar.by_name(self.grammar.start) else None
         cands = [pr.syms[1] for pr in self.grammar.by_name(first) if len(pr.syms) == 2 and pr.syms[1] in self.grammar.terminals] if first else []
         self.ident_token = cands[0] if cands else "ID"
+        self.use_entry_points = True
+        self.through_entry_point = 0       # shapes whose text was obtained through recompile / generate_code
+        self.direct_generator = 0          # shapes for which the generator was called directly
+        self.entry_point_failures = []     # (entry point, why it could not be followed)
 
     def _main_lexer(self) -> LexerClass:
         # the lexer whose tokens the parser uses / that parse_source instantiates
@@ -444,6 +448,80 @@ class Pipeline:
         gen = interp.instantiate(cv, [root], {"expose_experiment_variant_function": expose}, "pipeline")
         return interp.apply(interp.getattr(gen, "generate", "pipeline"), [], {}, "pipeline")
 
+    def via_entry_point(self, root, it: A.Interp, expose: bool):
+        """The text the library's own entry point produces for this tree: ExperimentEvaluator.recompile (what it hands to
+        compile/exec) for the evaluator's layout, generate_code(text, True) for the exposed one.  The entry point is interpreted
+        as written - its own steps around parsing and generating (options passed to the generator, checks, rewriting of the tree or
+        of the text) are part of what runs - with the lexer and parser classes replaced by stand-ins that deliver this tree.  None
+        when the entry point cannot be followed (the generator is then called directly, as the documented pipeline does)."""
+        text = A.Sym("str", "SOURCE-TEXT")
+        captured = []
+        saved = {k: getattr(it, k, None) for k in ("class_hooks", "builtin_hooks", "ext_hooks", "hash_domain")}
+        lexer_names = {n for n, lc in self.lexers.items()}
+        parser_name = self.grammar.cls.name
+
+        def mk_lexer(it_, a_, k_, s_):
+            # the stream is a sequence the entry point may wrap or iterate; the parser stand-in ignores what it is given
+            return A.Opaque("lexer", methods={"tokenize": lambda i2, a2, k2, s2: A.AList([A.Opaque("token")], "list")})
+
+        def mk_parser(it_, a_, k_, s_):
+            return A.Opaque("parser", methods={"parse": lambda i2, a2, k2, s2: root})
+
+        def compile_(it_, a_, k_, s_):
+            src = a_[0] if a_ else k_.get("source")
+            captured.append(src)
+            return A.Opaque("code", payload=src)
+
+        def exec_(it_, a_, k_, s_):
+            src = a_[0] if a_ else None
+            if not (isinstance(src, A.Opaque) and src.tag == "code"):
+                captured.append(src)
+            loc = a_[2] if len(a_) > 2 else k_.get("locals")
+            glb = a_[1] if len(a_) > 1 else k_.get("globals")
+            target = loc if isinstance(loc, A.ADict) else (glb if isinstance(glb, A.ADict) else None)
+            name = root.attrs.get("id") if isinstance(root, A.Obj) else None
+            if target is not None and name is not None:
+                target.items[A._key(name)] = A.Opaque("compiled-function", payload={"text": src})
+            return None
+        it.class_hooks = {**(saved["class_hooks"] or {}), **{n: mk_lexer for n in lexer_names}, parser_name: mk_parser}
+        it.builtin_hooks = {**(saved["builtin_hooks"] or {}), "compile": compile_, "exec": exec_,
+                            "globals": lambda i2, a2, k2, s2: A.Opaque("module-globals")}
+        it.ext_hooks = {**(saved["ext_hooks"] or {}), "black.format_str": lambda i2, a2, k2, s2: a2[0],
+                        "black.FileMode": lambda i2, a2, k2, s2: A.Opaque("black-mode"),
+                        "black.Mode": lambda i2, a2, k2, s2: A.Opaque("black-mode")}
+        it.hash_domain = True
+        try:
+            if not expose:
+                em = self.src.mod("experiment_evaluator.py")
+                ec = em.classes().get("ExperimentEvaluator")
+                if ec is None:
+                    return None
+                cv = it.class_val(em, ec)
+                it.instantiate(cv, [text], {}, "pipeline")
+                texts = [c for c in captured if isinstance(c, A.Tmpl)]
+                return texts[-1] if texts else None
+            wm = self.src.mod("utils/wraper_functions.py")
+            fn = wm.functions().get("generate_code")
+            if fn is None:
+                return None
+            params = [a.arg for a in fn.args.args]
+            kw = {params[1]: True} if len(params) > 1 else {}
+            out = it.call(A.FuncVal(wm, fn), [text], kw)
+            return out if isinstance(out, A.Tmpl) else None
+        except A.Unsupported as e:
+            self.entry_point_failures.append(("recompile" if not expose else "generate_code", str(e)))
+            return None
+        finally:
+            for k, v in saved.items():
+                if v is None:
+                    if hasattr(it, k):
+                        try:
+                            delattr(it, k)
+                        except AttributeError:
+                            pass
+                else:
+                    setattr(it, k, v)
+
     def run(self, prog: Prog, expose: bool, toks=None):
         """Return a list of Outcome (one per fork of undetermined decisions)."""
         toks = prog_tokens(prog) if toks is None else toks
@@ -452,7 +530,12 @@ class Pipeline:
             root = self.parse_to_ast(toks, it)
             if root is None:
                 return ("syntax-error", None, None)
-            tmpl = self.generate(root, it, expose)
+            tmpl = self.via_entry_point(root, it, expose) if self.use_entry_points else None
+            if tmpl is None:
+                self.direct_generator += 1
+                tmpl = self.generate(root, it, expose)
+            else:
+                self.through_entry_point += 1
             return ("ok", root, tmpl)
         outs = []
         for assumptions, res, it in A.run_forking(self.src, job):
